@@ -83,7 +83,7 @@ def get_diagonal_indices(mat):
     has_diag = bmat.diagonal()
     nnz_rows = np.array(bmat.sum(axis=0)).flatten()[:n]
     nnz_cols = np.array(bmat.sum(axis=1)).flatten()[:n]
-    return np.logical_and(has_diag, nnz_rows <= 1, nnz_cols <= 1)
+    return np.logical_and.reduce([has_diag, nnz_rows <= 1, nnz_cols <= 1])
 
 
 class LDAWrapper(LinearSolver):
